@@ -460,14 +460,37 @@ Record sess := mksess {
   s_lastreq : list opt        (* options of our last Configure-Request *)
 }.
 
-(* startNCP without registry and allocation context: fallback address, SetPeerAddress, default DNS
-   8.8.8.8 / 8.8.4.4, IPCP Up+Open (Initial -> Closed -> Req-Sent) *)
+(* every scr rebuilds our request from the configuration as it is at that moment *)
+Definition next_req (c : ipcp_cfg) (acts : list act) (last : list opt) : list opt :=
+  if existsb (fun a => match a with Scr => true | _ => false end) acts then build_confreq c else last.
+
+(* FSM.Up() followed by FSM.Open(), as startNCP calls them *)
+Definition up_open (st : N) : list act * N :=
+  match st with
+  | 0 => ([Scr], 6)          (* Up: Initial -> Closed; Open: irc, scr -> Req-Sent *)
+  | 1 => ([Scr], 6)          (* Up: irc, scr -> Req-Sent; Open: nothing *)
+  | 2 => ([Scr], 6)          (* Open: irc, scr -> Req-Sent *)
+  | 4 => ([], 5)             (* Open in Closing -> Stopping *)
+  | _ => ([], st)
+  end%N.
+
+(* startNCP without registry and allocation context: IPCP is configured (SetPeerAddress, SetDNS with the
+   defaults 8.8.8.8 / 8.8.4.4) and started (Up + Open) only when the session owns a usable IPv4 address;
+   otherwise the session address is cleared and the IPCP object stays untouched (for a new session: in
+   Initial, nothing assigned) *)
 Definition dns_default1 : bytes := (v4prefix ++ [8;8;8;8])%N.
 Definition dns_default2 : bytes := (v4prefix ++ [8;8;4;4])%N.
+Definition start_ncp (fl : flags) (c : ipcp_cfg) (st : N) (p : ipcp_peer) (addr : option bytes)
+           (op : bool) (last : list opt) : sess * list act :=
+  if usable addr then
+    let (c1, p1) := ipcp_set_peer fl c p addr in
+    let c2 := mkicfg (ic_assigned c1) (to4 dns_default1) (to4 dns_default2) (ic_local c1) (ic_rejected c1) in
+    let (a, st') := up_open st in
+    (mksess c2 st' p1 addr op (next_req c2 a last), a)
+  else (mksess c st p None op last, []).
+
 Definition sess_start (fl : flags) (aaa : option bytes) : sess :=
-  let a := match extract_ip fl aaa with Some x => x | None => fallback_addr end in
-  let c := mk_ipcp_cfg (Some a) (Some (Some dns_default1, Some dns_default2)) in
-  mksess c 6 ipeer0 (Some a) false (build_confreq c).
+  fst (start_ncp fl (mk_ipcp_cfg None None) 0 ipeer0 (extract_ip fl aaa) false []).
 
 (* callbacks LayerUp = onIPCPUp, LayerDown = onIPCPDown *)
 Definition on_act (fl : flags) (p : ipcp_peer) (st : option bytes * bool) (a : act) : option bytes * bool :=
@@ -486,7 +509,8 @@ Definition parse_lenient (w : bytes) : list opt := match parse_wire w with Ok os
 Definition rcn_event (st : N) (id : N) : list act * N :=
   match st with
   | 2 | 3 => ([Sta id], st)
-  | 6 | 7 | 8 => ([Scr], 6)
+  | 6 | 7 => ([Scr], 6)
+  | 8 => ([Scr], 8)
   | 9 => ([Tld; Scr], 6)
   | _ => ([], st)
   end%N.
@@ -499,10 +523,6 @@ Inductive sev :=
 | EvRej (wire : bytes)              (* Configure-Reject with our last identifier *)
 | EvReauth (aaa : option bytes).    (* LCP renegotiated, authentication repeated: extractIPFromAttributes with
                                        the new AAA answer and startNCP run again on the same session *)
-
-(* every scr rebuilds our request from the configuration as it is at that moment *)
-Definition next_req (c : ipcp_cfg) (acts : list act) (last : list opt) : list opt :=
-  if existsb (fun a => match a with Scr => true | _ => false end) acts then build_confreq c else last.
 
 Definition sess_fsm_only (fl : flags) (s : sess) (c' : ipcp_cfg) (r : list act * N) : sess * list act :=
   let (a, st') := r in
@@ -520,14 +540,9 @@ Definition sess_step (fl : flags) (s : sess) (e : sev) : sess * list act :=
   | EvNak w => sess_fsm_only fl s (ipcp_learn (s_cfg s) (parse_lenient w)) (rcn_event (s_fsm s) 0)
   | EvRej w => sess_fsm_only fl s (ipcp_rejected (s_cfg s) (parse_lenient w)) (rcn_event (s_fsm s) 0)
   | EvReauth aaa =>
-      (* the session address is kept unless AAA delivers a new one; nil falls back to 100.64.0.1;
-         SetPeerAddress and SetDNS (DNS1/DNS2 are already set) run again; Up/Open are no-ops in
-         states 6..9, the only ones a started session is in *)
-      let a := match extract_ip fl aaa with Some x => x
-               | None => match s_addr s with Some x => x | None => fallback_addr end end in
-      let (c1, p1) := ipcp_set_peer fl (s_cfg s) (s_peer s) (Some a) in
-      let c2 := mkicfg (ic_assigned c1) (to4 dns_default1) (to4 dns_default2) (ic_local c1) (ic_rejected c1) in
-      (mksess c2 (s_fsm s) p1 (Some a) (s_open s) (s_lastreq s), [])
+      (* the session address is kept unless AAA delivers a new one; then startNCP again *)
+      let addr := match extract_ip fl aaa with Some x => Some x | None => s_addr s end in
+      start_ncp fl (s_cfg s) (s_fsm s) (s_peer s) addr (s_open s) (s_lastreq s)
   end.
 
 Fixpoint sess_run (fl : flags) (s : sess) (es : list sev) : sess :=
